@@ -552,6 +552,7 @@ func (f *Frame) enterLoop(b *ssa.BasicBlock, li *loopInfo) (string, *State) {
 		a0 := e.comp(li.entrySt, "alloc", arrSort(sBool))
 		a1 := e.comp(st, "alloc", arrSort(sBool))
 		e.assume("true", fmt.Sprintf("(forall ((r Int)) (! (=> (select %s r) (select %s r)) :pattern ((select %s r))))", a0, a1, a1))
+		e.assume("true", not(sel(a1, "0")))
 	}
 	if f.top {
 		for _, c := range mods {
@@ -893,6 +894,12 @@ func (f *Frame) unop(i *ssa.UnOp) {
 		l := e.ptrLoc(x)
 		if x.Loc == nil {
 			f.safety("nil", not(eq(x.T, "0")), "nil dereference", i.Pos())
+		}
+		for _, nr := range e.noRead {
+			if nr.comp == l.Comp && !f.dry {
+				e.oblige("readframe", strings.TrimPrefix(nr.comp, "H."), f.pc, not(eq(l.Idx[0], nr.idx)),
+					"the function does not read "+nr.src+" (read frame: exported values must come from the label set being formatted)", i.Pos(), nil)
+			}
 		}
 		v := e.load(f.st, l)
 		v = term(e.define(f.id+"."+i.Name(), v.Sort, v.T), v.Sort, i.Type())
